@@ -718,6 +718,9 @@ func (st *Runtime) evalPrimaryExpressionGroup(node Expression) reflect.Value {
 			length = baseExpression.Len()
 		}
 
+		if index < 0 || length < index || length > baseExpression.Len() {
+			node.errorf("slice bounds out of range [%d:%d] with length %d", index, length, baseExpression.Len())
+		}
 		return baseExpression.Slice(index, length)
 	}
 	return st.evalBaseExpressionGroup(node)
